@@ -354,6 +354,8 @@ pub struct RunOut {
     pub t0: u64,
     pub snapshot: Option<State>,
     pub error_text: Option<String>,
+    /// for a run that ended with an error: the error shown by a snapshot taken after a subsequent clear()
+    pub error_after_clear: Option<Option<String>>,
 }
 
 impl RunOut {
@@ -438,7 +440,7 @@ pub fn exec(cfg: &Cfg, env: Box<dyn Env>, t0: u64, tick: u64) -> RunOut {
     let tracer = match cfg.build() {
         Ok(t) => t,
         Err(e) => {
-            return RunOut { result: format!("err:{}", ErrK::of(&e).tok()), sends: vec![], rounds: vec![], iters: vec![], t0, snapshot: None, error_text: None };
+            return RunOut { result: format!("err:{}", ErrK::of(&e).tok()), sends: vec![], rounds: vec![], iters: vec![], t0, snapshot: None, error_text: None, error_after_clear: None };
         }
     };
     let _ = vclock::take_readings();
@@ -524,7 +526,8 @@ pub fn exec(cfg: &Cfg, env: Box<dyn Env>, t0: u64, tick: u64) -> RunOut {
         iters.push(cur);
     }
     let snapshot = Some(tracer.snapshot());
-    RunOut { result, sends, rounds, iters, t0: t0_seen.unwrap_or(t0), snapshot, error_text }
+    let error_after_clear = if result.starts_with("err:") { tracer.clear(); Some(tracer.snapshot().error().map(ToString::to_string)) } else { None };
+    RunOut { result, sends, rounds, iters, t0: t0_seen.unwrap_or(t0), snapshot, error_text, error_after_clear }
 }
 
 /// Replay environment: feeds a recorded trace back (exhaustion => timeouts / sent).
